@@ -735,7 +735,7 @@ SPEC = {
     "theorems": ["C08_positions", "C08_document_order", "C08_every_node_once", "C08_handled_nodes_once",
                  "C08_paths_in_preorder",
                  "C08_handler_most_specific", "C08_handler_first_in_mro", "C08_mro_class_before_bases",
-                 "C08_context_true", "C08_cache_lookups", "C08_cache_visits", "C08_cache_shared_refuted",
+                 "C08_context_true", "C08_context_aligned", "C08_cache_lookups", "C08_cache_visits", "C08_cache_shared_refuted",
                  "C08_names_memo_refuted",
                  "C08_copy_total", "C08_copy_equal_refuted", "C08_copy_equal_partial",
                  "C08_copy_print_refuted", "C08_copy_print_partial", "C08_copy_wellformed",
@@ -743,7 +743,10 @@ SPEC = {
     "tie_facts": "C08_ties",
     "correspond": correspond,
     "statement": "probe visitors get every node exactly once in pre-order, at the handler of the most specific "
-                 "class that has one, with the true ancestors / index path as context, for every history of "
+                 "class that has one, with the true ancestors / index path as context (C08_context_aligned: the k-th "
+                 "event is for the k-th emitting position in pre-order, its node is the sub-tree there and its "
+                 "parents / path are the ancestors / path of THAT position, also when equal sub-terms occur at "
+                 "several positions; C08_context_true is the existential corollary), for every history of "
                  "visits by several classes and instances (per-instance dispatch cache, no state shared between "
                  "visitor classes); the default transformer never fails and returns a tree equal to the input, "
                  "with the same text, classes and layout at every position (names are not copied)",
